@@ -198,3 +198,69 @@ Fixpoint v_drain (server : Z -> list hwin) (fuel : nat) (v : vstate) : list hwin
            | (None, _) => ([], true)
            end
   end.
+
+(* ---------- cdn.Chunk in CDN mode: walking the request plan ---------- *)
+(* cdn_state_machine.go, partLoop: for every step of the plan one upload.getCdnFile; an answer longer
+   than the step's limit is an error (fix 833ec1650); the decrypted part is appended; the first part
+   shorter than its limit ends the walk ("reached file tail").  Redirect refresh, reupload and
+   fingerprint events restart the whole chunk and are not part of this model. *)
+Section Chunk.
+Variable E : Z -> list Z.                       (* AES-256 under the file key *)
+Variable ivz : Z.
+Variable answers : Z -> Z -> list Z.            (* the CDN's (encrypted) answer to getCdnFile(offset, limit): anything *)
+
+Fixpoint assemble (steps : list (Z * Z)) (data : list Z) : option (list Z) :=
+  match steps with
+  | [] => Some data
+  | (o, l) :: t =>
+      let a := answers o l in
+      if Z.of_nat (length a) >? l then None
+      else let part := decrypt E ivz o a in
+           if Z.of_nat (length part) <? l then Some (data ++ part) else assemble t (data ++ part)
+  end.
+
+Variable sha : list Z -> list Z.
+Variable hash_for : Z -> option hwin.
+Variable fetch : hwin -> list Z.
+
+Definition cdn_chunk (offset limit : Z) : option (list Z) :=
+  match build_plan offset limit with
+  | PlanOk steps =>
+      match assemble steps [] with
+      | Some data => verify_chunk sha hash_for fetch offset limit data
+      | None => None
+      end
+  | _ => None
+  end.
+End Chunk.
+
+(* the same walk on lengths only: which requests are made for one chunk, given the lengths of the answers
+   (taken from a list in order); result: requests, length of the chunk, error flag, remaining lengths *)
+Fixpoint walk_lens (steps : list (Z * Z)) (lens : list Z) (acc : Z) : list (Z * Z) * Z * bool * list Z :=
+  match steps with
+  | [] => ([], acc, false, lens)
+  | (o, l) :: t =>
+      match lens with
+      | [] => ([], acc, true, [])           (* the log ends here *)
+      | n :: lens' =>
+          if n >? l then ([(o, l)], acc, true, lens')
+          else if n <? l then ([(o, l)], acc + n, false, lens')
+          else let '(rs, a, e, r) := walk_lens t lens' (acc + n) in ((o, l) :: rs, a, e, r)
+      end
+  end.
+(* a streaming download with part size p: chunk k is requested at k*p; a short (or empty) chunk is the last *)
+Fixpoint walk_download (fuel : nat) (p : Z) (k : Z) (lens : list Z) : list (Z * Z) :=
+  match fuel with
+  | O => []
+  | S f =>
+      match lens with
+      | [] => []
+      | _ =>
+        match build_plan (k * p) p with
+        | PlanOk steps =>
+            let '(rs, a, e, r) := walk_lens steps lens 0 in
+            if e then rs else if a <? p then rs else rs ++ walk_download f p (k + 1) r
+        | _ => []
+        end
+      end
+  end.
